@@ -9,4 +9,8 @@ go vet ./... || exit 1
 for d in c[0-9][0-9]; do
   go test -c -tags verif -vet=off -o /dev/null ./$d || exit 1
 done
+# the concurrency checks build with the race detector: warm that variant of the standard library too
+for d in c16 c17; do
+  go test -race -c -tags verif -vet=off -o /dev/null ./$d || exit 1
+done
 echo "setup ok"
